@@ -94,15 +94,28 @@ fn describe(d: &TypeDef) -> String {
     match &d.def {
         Def::Alias(t) => t.rust(),
         Def::Struct { repr_c, align8, fields } => format!("{}struct {{ {} }}", if *align8 { "#[repr(C, align(8))] " } else if *repr_c { "#[repr(C)] " } else { "" }, fields.iter().map(|f| f.rust()).collect::<Vec<_>>().join(", ")),
+        Def::Tuple { repr_c, fields, ignored } => format!("{}struct({})", if *repr_c { "#[repr(C)] " } else { "" }, fields.iter().enumerate().map(|(i, f)| format!("{}{}", if i == *ignored { "#[savefile_ignore] " } else { "" }, f.rust())).collect::<Vec<_>>().join(", ")),
         Def::Enum { repr, variants } => format!(
             "{} enum {{ {} }}",
             repr.attr(),
             variants
                 .iter()
-                .map(|v| format!("{}{}{}", v.name, if v.fields.is_empty() { String::new() } else { format!("({})", v.fields.iter().map(|f| f.rust()).collect::<Vec<_>>().join(", ")) }, v.discr.map(|x| format!(" = {}", x)).unwrap_or_default()))
+                .map(|v| {
+                    let fl = v.fields.iter().enumerate().map(|(i, f)| format!("{}{}", if Some(i) == v.ignored { "#[savefile_ignore] " } else { "" }, f.rust())).collect::<Vec<_>>().join(", ");
+                    format!("{}{}{}", v.name, if v.fields.is_empty() { String::new() } else { format!("({})", fl) }, v.discr.map(|x| format!(" = {}", x)).unwrap_or_default())
+                })
                 .collect::<Vec<_>>()
                 .join(", ")
         ),
+    }
+}
+
+/// does the definition have a `#[savefile_ignore]`d field?
+fn has_ignored_field(d: &TypeDef) -> bool {
+    match &d.def {
+        Def::Tuple { .. } => true,
+        Def::Enum { variants, .. } => variants.iter().any(|v| v.ignored.is_some()),
+        _ => false,
     }
 }
 
@@ -115,7 +128,7 @@ fn has_permuted_discriminants(fam: &[TypeDef], d: &TypeDef) -> bool {
     };
     match &d.def {
         Def::Alias(t) => ty(t),
-        Def::Struct { fields, .. } => fields.iter().any(ty),
+        Def::Struct { fields, .. } | Def::Tuple { fields, .. } => fields.iter().any(ty),
         Def::Enum { variants, .. } => variants.iter().enumerate().any(|(i, v)| v.discr.map(|x| x != i as u32).unwrap_or(false)) || variants.iter().any(|v| v.fields.iter().any(ty)),
     }
 }
@@ -127,6 +140,7 @@ fn pair_tags(ctx: &Ctx, a: usize, b: usize, layer: &str, diff_kind: &str) -> BTr
         ("difference", diff_kind.to_string()),
         ("explicit_discriminants_differ_from_variant_positions", if perm { "yes" } else { "no" }.to_string()),
         ("same_definition", if a == b { "yes" } else { "no" }.to_string()),
+        ("ignored_field", if has_ignored_field(&ctx.fam[a]) || has_ignored_field(&ctx.fam[b]) { "yes" } else { "no" }.to_string()),
     ])
 }
 
@@ -779,6 +793,7 @@ pub fn parent(run: &mut Run) -> (Map<String, Value>, Vec<String>) {
                 Def::Alias(_) => "plain (primitive, array, tuple, collection)",
                 Def::Struct { repr_c: true, .. } => "struct repr(C)",
                 Def::Struct { repr_c: false, .. } => "struct repr(Rust)",
+                Def::Tuple { .. } => "tuple struct with one #[savefile_ignore] field",
                 Def::Enum { .. } => "enum",
             })
             .or_insert(0) += 1;
@@ -807,7 +822,7 @@ pub fn parent(run: &mut Run) -> (Map<String, Value>, Vec<String>) {
         "memory is read as the other type only after the measured layouts were found identical; otherwise the violation is already established".to_string(),
         "'no' answers of layout_compatible are always acceptable (counted as identical_layout_declared_incompatible)".to_string(),
         "layer 2 runs in one compilation: layouts of identical definitions are trivially identical, the differences come from the definition family (field order, repr, discriminants, array lengths); another compiler and randomised layouts are layer 3 (thorough)".to_string(),
-        "definitions with #[savefile_ignore]d or versioned fields are not part of this family (C10 covers versions)".to_string(),
+        "an ignored field (#[savefile_ignore]) is not part of the schema: the measured layout of such a definition is its size, alignment and the offsets of its SERIALIZED fields, and values are compared on the serialized fields only; definitions with versioned fields are not part of this family (C10 covers versions)".to_string(),
     ];
     (cov, assumptions)
 }
